@@ -385,6 +385,7 @@ func minimize(sig string, cs []byte) []byte {
 		}
 		return false
 	}
+	fails = ev.Bounded(fails)
 	if !fails(c.H) {
 		return nil
 	}
